@@ -28,6 +28,10 @@ CHECK = {'level': 'exploration',
          'no reply dropped as "unknown request ID" while more requests with that ID are outstanding (after-send passed, timer not fired, not cancelled) than responses with that ID found a pending entry '
          '(checked for every call of every class, ordered through resMu, no clocks); handler runs per (group, requester, responder) <= calls x (retries+1) and = calls when no timer fired and nothing '
          'was cancelled; pending tables empty. Directed form in every tier (TestRegressIdenticalConcurrentRequests: to three peers / three times to one peer / both mixed, T 400 ms, slow 120 ms). '
+         'Response timer, every class (own clock, LOWER bound): "this attempt is no longer waiting" is learnt from the engine\'s timeout-fired schedule point in the lost-reply, stalled-peer and storm rules, '
+         'so for every attempt (requester goroutine, message ID - also the per-peer goroutines of Broadcast) the time between the return of the after-send callback (the engine arms its timer afterwards) and the '
+         'entry of the timeout-fired callback, both read from the monotonic clock of the test process, must be >= the timeout set through VerifSetTimeout - 1 ms (deadline:response-timer-fired-before-the-timeout; a timer '
+         'cannot fire early because of load, so no heartbeat guard; labels deadline:...). The retry budget is read from p2p.VerifMaxRetries() and pinned to the documented value 3 (= 4 attempts) in TestMain of every process. '
          'Watchdog for every case of every class: a request that does not end is a VIOLATION when three goroutine dumps (>= 300 ms and >= 40 process heartbeats apart, '
          'after >= 4 s and >= 400 heartbeats without any event) show the same goroutines of the case\'s cluster waiting for a mutex inside pkg/p2p below a MessageProtocol '
          'method, or an outstanding requester parked in the select of sendRequestMessage; or, with nothing recognisable parked, when calls are outstanding and no event '
@@ -68,13 +72,17 @@ CHECK = {'level': 'exploration',
  'level_note': 'Blocked-forever is reported only on positive evidence from goroutine dumps taken while nothing moved for 4 s and the process demonstrably ran '
                '(heartbeats): onResponse parked in a channel send, layer goroutines waiting for a mutex, a requester parked in its select although timer and '
                'context should have ended it, or - shape unknown - callers still inside RequestFrom after 30 s without any event and >= 2000 heartbeats. Only a '
-               'starved process (too few heartbeats) ends a case as inconclusive at the 120 s budget. No latency bound is asserted outside the context-shapes class; there only two generous upper bounds (3 x budget + 2 s per call, 2 s after the end of the context), never a lower bound, '
-               'judged only when the process got its heartbeats and confirmed 3 of 3 times on the call alone. A Broadcast that does not return is reported '
+               'starved process (too few heartbeats) ends a case as inconclusive at the 120 s budget. No latency bound is asserted on a CALL outside the context-shapes class; there only two generous upper bounds (3 x budget + 2 s per call, 2 s after the end of the context), never a lower bound, '
+               'judged only when the process got its heartbeats and confirmed 3 of 3 times on the call alone. The one lower bound of the check concerns the response TIMER of an attempt (not earlier than the timeout set by the harness, 1 ms tolerance): '
+               'load can only delay a timer, so it is asserted unconditionally. A Broadcast that does not return is reported '
                'when its caller is parked in MessageProtocol.Broadcast itself in three dumps and none of the goroutines it started is inside a per-peer request (a Broadcast that legitimately waits for running requests is never evidence).',
  'technique': 'property-based testing (rapid) of concurrent histories with schedule-point steering and invariant/correlation oracles',
  'assumptions': ['dropped replies are observed through the "unknown request ID" warning of onResponse (custom logger); if its text changes only the '
                  'lost-reply signal is lost', 'duplicates carry the same payload as the real reply (the layer cannot tell a forged reply with a valid ID apart)',
                  'rate limiting is disabled through WithRPCMessageCounter (belongs to C18)',
+                 'retry budget: messageMaxRetries = 3 (4 attempts per request) is the documented protocol value; the accessor p2p.VerifMaxRetries() is pinned to it in TestMain (a changed constant fails every process of the package)',
+                 'response-timer lower bound: the engine arms the timer of an attempt after the after-send schedule point returns and reaches timeout-fired on the same goroutine; while the timeout is being changed '
+                 '(liveness probe) the smaller of the old and new value is the bound; a timeout-fired without a recorded after-send of that goroutine and ID is counted (label) and not judged',
                  'stalled-peer class: "reply not delivered in time" is measured in heartbeats of a goroutine of the test process (>= 20 beats between the handler\'s '
                  'answer and the requester\'s timer), skipped for calls during which a beat was late (> 50 ms), and counts only when the same scenario shows it 3 of 3 '
                  'times; otherwise inconclusive',
